@@ -42,6 +42,9 @@ func linearChain(cast *Cast, service *Prin, can, with string, depth int, far int
 
 func linkNode(i int) datamodel.Link { return fakeLink(900000 + i) }
 
+// set by a generator before finishWorlds: builders of worlds for the second t
+var timedExtras []func(t int) (*World, string)
+
 func finishWorlds(o genOpts, prop string, worlds []*World, labels map[int]string, st *worldStats, shards int, extra map[string]any) error {
 	var cases []string
 	for _, w := range worlds {
@@ -51,6 +54,32 @@ func finishWorlds(o genOpts, prop string, worlds []*World, labels map[int]string
 		}
 		cases = append(cases, c)
 	}
+	// worlds that must be validated in exactly the second their tokens name (boundary of the validity window)
+	for _, mk := range timedExtras {
+		for try := 0; try < 40; try++ {
+			for ns := time.Now().Nanosecond(); ns > 600_000_000; ns = time.Now().Nanosecond() {
+				time.Sleep(5 * time.Millisecond)
+			}
+			t := int(time.Now().Unix())
+			w, label := mk(t)
+			if err := w.Build(); err != nil {
+				return err
+			}
+			obs := w.Run()
+			if obs.NowBefore != t || obs.NowAfter != t {
+				continue
+			}
+			labels[w.ID] = label
+			st.Worlds++
+			st.Kinds["at-the-exact-second"]++
+			if obs.Authorized {
+				st.Authorized++
+			}
+			cases = append(cases, w.Coq(obs))
+			break
+		}
+	}
+	timedExtras = nil
 	if err := writeWorldCases(o.out, "cases_"+prop, cases, shards, "check_worlds"); err != nil {
 		return err
 	}
@@ -174,6 +203,59 @@ func init() {
 				}
 			}
 		}
+		// the same restrictions read through core/schema.Struct (fields renamed in the representation); a restricting
+		// delegation that ALSO carries an entry the schema does not define is malformed, not a narrower delegation
+		for depth := 1; depth <= 2; depth++ {
+			for _, field := range []string{"link", "tag", "max", "tags", "hdr"} {
+				for claim := 0; claim < 3; claim++ {
+					for _, extra := range []bool{false, true} {
+						cast := newCast(o.seed*7919 + int64(id))
+						service := cast.Ed("service")
+						with := cast.Ed("p0").DID.String()
+						var claimNb Cav
+						if claim > 0 {
+							claimNb = cavWith(field, claim)
+						}
+						specs := linearChain(cast, service, "store/add", with, depth, far, claimNb)
+						nb := cavWith(field, 0)
+						if extra {
+							nb.Extra = map[string]datamodel.Node{"ttl": basicnode.NewInt(3600)}
+						}
+						specs[0].Caps[0].Nb = nb
+						w := &World{Kind: "caveat-struct-reader", Cast: cast, Can: "store/add", Inv: "inv", Specs: specs, Ctx: baseCtx(service), StructReader: true}
+						add(w, fmt.Sprintf("schema.Struct reader: depth=%d field=%s claim=%s undefined-entry=%v", depth, field, []string{"omits", "matches", "contradicts"}[claim], extra))
+					}
+				}
+			}
+		}
+		// two sibling proofs with the SAME ability and resource: a worthless unrestricted one (the citing principal
+		// delegating to himself) next to the owner's genuine, restricting delegation — in both orders
+		for depth := 1; depth <= 3; depth++ {
+			for level := 1; level <= depth; level++ {
+				for _, field := range []string{"link", "max", "tags", "orig"} {
+					for claim := 1; claim <= 2; claim++ {
+						for _, first := range []bool{true, false} {
+							cast := newCast(o.seed*7919 + int64(id))
+							service := cast.Ed("service")
+							with := cast.Ed("p0").DID.String()
+							specs := linearChain(cast, service, "store/add", with, depth, far, cavWith(field, claim))
+							specs[level-1].Caps[0].Nb = cavWith(field, 0)
+							citing := specs[level]
+							self := &TokSpec{Name: "selfgrant", Issuer: citing.Issuer, Audience: citing.Issuer, Exp: &far, Nonce: "self",
+								Caps: []CapSpec{{Can: "store/add", With: with, Nb: Cav{}}}}
+							if first {
+								citing.Proofs = append([]ProofRef{{Tok: "selfgrant", Inline: true}}, citing.Proofs...)
+							} else {
+								citing.Proofs = append(citing.Proofs, ProofRef{Tok: "selfgrant", Inline: true})
+							}
+							w := &World{Kind: "caveat-sibling", Cast: cast, Can: "store/add", Inv: "inv", Specs: append([]*TokSpec{self}, specs...), Ctx: baseCtx(service)}
+							add(w, fmt.Sprintf("unrestricted self-grant %s the restricting delegation: depth=%d level=%d field=%s claim=%s",
+								map[bool]string{true: "before", false: "after"}[first], depth, level, field, []string{"", "matches", "contradicts"}[claim]))
+						}
+					}
+				}
+			}
+		}
 		// malformed / non-map caveats in a delegation
 		for k := 0; k < 4; k++ {
 			cast := newCast(o.seed*7919 + int64(id))
@@ -237,6 +319,7 @@ type sessOpts struct {
 	ParentProof int    // for AttIssuer=delegate: 0 parent has no caveat, 1 parent names this token, 2 parent names another token,
 	// 3 parent nb null, 4 parent is `*` with no caveat, 5 parent names this token but attestation names another
 	Decoys    int
+	BadDecoys int // attestations alongside that are themselves invalid: expired, badly signed, issued by a stranger
 	AttFirst  bool // attestation is not the first capability of its token (then it is not considered)
 	RSAAuth   bool
 	WebAuth   bool    // the authority is identified by did:web:example.com (its key wrapped), not by a did:key
@@ -299,6 +382,17 @@ func sessionWorld(seed int64, id int, so sessOpts) (*World, string) {
 				att.Issuer = service
 			case "stranger":
 				att.Issuer = cast.Ed("mallory")
+			case "stranger-with-proofs":
+				// a stranger attests, citing two delegations that are both addressed to OTHER principals: a junk one first,
+				// then the authority's genuine `*` delegation to its worker
+				att.Issuer = cast.Ed("mallory")
+				worker := cast.Ed("worker")
+				parent := &TokSpec{Name: "attparent", Issuer: service, Audience: worker, Exp: &far,
+					Caps: []CapSpec{{Can: "*", With: service.DID.String(), Nb: Cav{}}}}
+				junk := &TokSpec{Name: "attjunk", Issuer: cast.Ed("carol"), Audience: cast.Ed("bob"), Exp: &far,
+					Caps: []CapSpec{{Can: "debug/echo", With: cast.Ed("carol").DID.String(), Nb: Cav{}}}}
+				specs = append(specs, parent, junk)
+				att.Proofs = []ProofRef{{Tok: "attjunk", Inline: true}, {Tok: "attparent", Inline: true}}
 			case "lookalike":
 				// a principal whose DID extends the authority's text, with a resolvable key: it may attest on ITS OWN DID only
 				la := cast.Wrapped("lookalike", service.DID.String()+so.Lookalike, cast.Ed("lookalikekey"))
@@ -364,6 +458,26 @@ func sessionWorld(seed int64, id int, so sessOpts) (*World, string) {
 				if att != nil {
 					sp.Proofs = append(sp.Proofs, ProofRef{Tok: "att", Inline: true})
 				}
+				for d := 0; d < so.BadDecoys; d++ {
+					dn := fmt.Sprintf("attbad%d", d)
+					dec := &TokSpec{Name: dn, Issuer: service, Audience: agent, Exp: &far, Nonce: dn,
+						Caps: []CapSpec{{Can: "ucan/attest", With: service.DID.String(), Nb: attestNb{w, []string{"acct", "othertok"}[d%2]}}}}
+					switch d % 3 {
+					case 0:
+						e := now - 5000
+						dec.Exp = &e
+					case 1:
+						dec.SignedBy = cast.Ed("mallory")
+					case 2:
+						dec.Issuer = cast.Ed("mallory")
+					}
+					specs = append(specs, dec)
+					if d%2 == 0 {
+						sp.Proofs = append([]ProofRef{{Tok: dn, Inline: true}}, sp.Proofs...)
+					} else {
+						sp.Proofs = append(sp.Proofs, ProofRef{Tok: dn, Inline: true})
+					}
+				}
 				for d := 0; d < so.Decoys; d++ {
 					dn := fmt.Sprintf("attdecoy%d", d)
 					dec := &TokSpec{Name: dn, Issuer: service, Audience: agent, Exp: &far, Nonce: dn,
@@ -413,7 +527,7 @@ func init() {
 		var worlds []*World
 		id := 0
 		for _, attested := range []string{"this", "other", "none"} {
-			for _, iss := range []string{"authority", "delegate", "delegate-broken", "stranger"} {
+			for _, iss := range []string{"authority", "delegate", "delegate-broken", "stranger", "stranger-with-proofs"} {
 				for _, res := range []string{"authority", "other"} {
 					for _, win := range []string{"valid", "expired", "notyet"} {
 						for pos := 0; pos <= 3; pos++ {
@@ -456,6 +570,18 @@ func init() {
 				w.ID = id
 				labels[id] = label + fmt.Sprintf(" decoys=%d attfirst=%v", so.Decoys, so.AttFirst)
 				worlds = append(worlds, w)
+				id++
+			}
+		}
+		// the attestation (and the delegation its issuer holds) exactly at the boundary seconds of its window
+		for _, pos := range []string{"attestation", "attest-parent"} {
+			for _, tc := range []timedCase{{pos, 0, -9}, {pos, 1, -9}, {pos, -1, -9}, {pos, 100000, 0}, {pos, 100000, -1}, {pos, 100000, 1}} {
+				tc, wid := tc, id
+				timedExtras = append(timedExtras, func(t int) (*World, string) {
+					w, label := timedWorld(o.seed, wid, tc, t)
+					w.ID = wid
+					return w, "session at the exact second: " + label
+				})
 				id++
 			}
 		}
@@ -507,6 +633,56 @@ func init() {
 						worlds = append(worlds, w)
 						id++
 					}
+				}
+			}
+		}
+		// a proof addressed to someone else (not revoked) cited BEFORE the proof that really authorizes (revoked): the
+		// checker must be shown the delegation that authorizes, at the invocation and inside an intermediate delegation
+		for depth := 1; depth <= 3; depth++ {
+			for at := 1; at <= depth; at++ { // the token citing the pair: at == depth+1-... index into specs
+				for _, revoked := range []bool{true, false} {
+					for _, before := range []bool{true, false} {
+						cast := newCast(o.seed*6151 + int64(id))
+						service := cast.Ed("service")
+						with := cast.Ed("p0").DID.String()
+						specs := linearChain(cast, service, "store/add", with, depth, far, Cav{})
+						w := &World{Kind: "revocation-misaligned-sibling", Cast: cast, Can: "store/add", Inv: "inv", Ctx: baseCtx(service)}
+						citing := specs[at] // cites specs[at-1]
+						genuine := specs[at-1]
+						decoy := &TokSpec{Name: "stray", Issuer: genuine.Issuer, Audience: cast.Ed("mallory"), Exp: &far, Nonce: "stray",
+							Caps: []CapSpec{{Can: "store/add", With: with, Nb: Cav{}}}}
+						if before {
+							citing.Proofs = append([]ProofRef{{Tok: "stray", Inline: true}}, citing.Proofs...)
+						} else {
+							citing.Proofs = append(citing.Proofs, ProofRef{Tok: "stray", Inline: true})
+						}
+						w.Specs = append([]*TokSpec{decoy}, specs...)
+						if revoked {
+							w.Ctx.Revoked[genuine.Name] = true
+						}
+						w.ID = id
+						labels[id] = fmt.Sprintf("misaligned sibling %s the genuine proof, depth=%d citing=%d genuine-revoked=%v", map[bool]string{true: "before", false: "after"}[before], depth, at, revoked)
+						worlds = append(worlds, w)
+						id++
+					}
+				}
+			}
+		}
+		// sessions: the attestation itself (a "logout") or the delegation the attester holds is revoked
+		for _, iss := range []string{"authority", "delegate"} {
+			for pos := 1; pos <= 2; pos++ {
+				for _, victim := range []string{"", "att", "attparent", "acct"} {
+					if victim == "attparent" && iss != "delegate" {
+						continue
+					}
+					w, label := sessionWorld(o.seed, id, sessOpts{Attested: "this", AttIssuer: iss, Resource: "authority", Window: "valid", Pos: pos, Resolver: "absent", ParentProof: 1})
+					if victim != "" {
+						w.Ctx.Revoked[victim] = true
+					}
+					w.ID = id
+					labels[id] = "session " + label + " revoked=" + victim
+					worlds = append(worlds, w)
+					id++
 				}
 			}
 		}
@@ -613,8 +789,14 @@ func init() {
 				// (for another token, expired), in every order the permutations produce
 				so := sessOpts{Attested: "this", AttIssuer: pick(r, []string{"authority", "delegate"}), Resource: "authority", Window: "valid",
 					Pos: 1 + r.Intn(2), Resolver: "absent", Decoys: 1 + r.Intn(3)}
+				if b%10 == 9 {
+					// not attested at all but its key can be resolved, with INVALID attestations (expired, badly signed, by a
+					// stranger — for this token and for another) alongside: they must not get in the way
+					so = sessOpts{Attested: "none", AttIssuer: "authority", Resource: "authority", Window: "valid",
+						Pos: 1 + r.Intn(2), Resolver: "correct", BadDecoys: 1 + r.Intn(4), Decoys: r.Intn(2)}
+				}
 				base, _ = sessionWorld(o.seed, id, so)
-				info = chainInfo{Depth: so.Pos, Decoys: so.Decoys}
+				info = chainInfo{Depth: so.Pos, Decoys: so.Decoys + so.BadDecoys}
 			}
 			var verdicts []bool
 			var ids []int
@@ -844,7 +1026,7 @@ func init() {
 		st := newWorldStats()
 		labels := map[int]string{}
 		positions := []string{"invocation", "proof1", "proof2", "proof3", "proof4", "attestation", "attest-parent", "resolver-proof"}
-		expOffs := []int{-9, -100000, -1, 0, 1, 100000}
+		expOffs := []int{-9, -8, -7, -100000, -1, 0, 1, 100000} // -9 unset, -8 / -7 the absolute values 0 and 1
 		nbfOffs := []int{-9, -100000, -1, 0, 1, 100000} // -9: unset
 		var todo []timedCase
 		rounds := 1
@@ -988,6 +1170,9 @@ func timedWorld(seed int64, id int, tc timedCase, t int) (*World, string) {
 	apply := func(sp *TokSpec) {
 		if tc.exp == -9 {
 			sp.Exp = nil
+		} else if tc.exp == -8 || tc.exp == -7 {
+			e := tc.exp + 8 // absolute: the epoch itself (exp present and 0) and one second after it
+			sp.Exp = &e
 		} else {
 			e := t + tc.exp
 			sp.Exp = &e
@@ -1037,6 +1222,10 @@ func offName(o int) string {
 	switch o {
 	case -9:
 		return "unset"
+	case -8:
+		return "epoch(0)"
+	case -7:
+		return "epoch+1"
 	case -100000:
 		return "far-past"
 	case 100000:
